@@ -922,6 +922,11 @@ func unop(instr *ssa.UnOp, x value) value {
 			return -x
 		}
 	case token.MUL:
+		if watchHook != nil {
+			if p, ok := x.(*value); ok {
+				onLoad(theInterp, nil, p)
+			}
+		}
 		return loadPtr(mustDeref(instr.X.Type()), x)
 	case token.NOT:
 		return !x.(bool)
